@@ -236,9 +236,15 @@ func TestC19Commands(t *testing.T) {
 			out, err := c19Run(w.C, cmd, k.Namespace, k.Name)
 			c19Interleave = nil
 			after := w.C.Snapshot()
+			raced := false
 			if interPost != nil {
-				// judge the command against the state right after the interleaved reconcile
+				// judge the command's writes against the state right after the interleaved reconcile; and if that
+				// reconcile ended or replaced the canary the command had read, the command hit a moving target
 				before = interPost
+				if ie := interPost.EDSByKey(k.Namespace, k.Name); ie == nil || (ie.Status.Canary != nil) != canaryActive || (ie.Status.Canary != nil && ie.Status.Canary.ReplicaSet != canaryRS) || ie.Status.ActiveReplicaSet != activeBefore {
+					raced = true
+					classes = append(classes, "controller-changed-canary-during-command")
+				}
 			}
 			_ = interPre
 			w.Cmds++
@@ -323,6 +329,9 @@ func TestC19Commands(t *testing.T) {
 			// the expectations below presuppose that the command acted on the current canary: if the user
 			// had already edited the template again (status.canary not yet refreshed), the command hit a
 			// superseded replica set and the statement promises nothing
+			if raced {
+				continue
+			}
 			if pre0 := before.RSByKey(k.Namespace, canaryRS); pre0 == nil || !oracle.RSMatchesTemplate(pre0, &before.EDSByKey(k.Namespace, k.Name).Spec.Template) {
 				classes = append(classes, "command-on-superseded-canary")
 				continue
